@@ -297,3 +297,126 @@ Proof.
     + destruct IH as [Hi [Hcb HR2]]. split; [exact Hi|split; [exact Hcb|]]. rewrite HR. exact HR2.
     + rewrite HR. exact IH.
 Qed.
+
+(* ---------------- the tail ---------------- *)
+Definition final (cur cbits sbits : Z) (out : bytes) : hres :=
+  if sbits >? 7 then HErr
+  else if Z.land cur (Z.ones cbits) =? Z.ones cbits then HOk (rev out) else HErr.
+Definition tail_finish (fuel : nat) (n : nat) (cur cbits sbits : Z) (out : bytes) : hres :=
+  match hd_tail fuel huff_trie n cur cbits sbits out with
+  | HStop x => x
+  | HGo _ cb sb out' => final cur cb sb out'
+  end.
+Lemma tail_S f n cur cbits sbits out :
+  hd_tail (S f) huff_trie n cur cbits sbits out =
+  if cbits >? 0 then
+    match get_child huff_trie n (Z.land (Z.shiftl cur (8 - cbits)) 255) with
+    | None => HStop HPanic
+    | Some CNil => HStop HErr
+    | Some (CNode _) => HGo n cbits sbits out
+    | Some (CLeaf sym len) =>
+      if len >? cbits then HGo n cbits sbits out
+      else hd_tail f huff_trie O cur (cbits - len) (cbits - len) (sym :: out)
+    end
+  else HGo n cbits sbits out.
+Proof. reflexivity. Qed.
+
+Lemma paths_no_match_true : forallb (fun n => match sym_match (path_of n) with None => true | Some _ => false end) (seq 0 15) = true.
+Proof. vm_compute. reflexivity. Qed.
+Lemma path_no_match n : (n < 15)%nat -> sym_match (path_of n) = None.
+Proof.
+  intros Hn. pose proof (proj1 (forallb_forall _ _) paths_no_match_true n) as H. cbv beta in H.
+  assert (In n (seq 0 15)) as Hin by (apply in_seq; lia). specialize (H Hin).
+  destruct (sym_match (path_of n)); [discriminate|reflexivity].
+Qed.
+Lemma byteval_true : forallb (fun b => bits_val (byte_bits b) 0 =? b) symbols = true.
+Proof. vm_compute. reflexivity. Qed.
+Lemma byteval b : 0 <= b < 256 -> bits_val (byte_bits b) 0 = b.
+Proof.
+  intros Hb. pose proof (proj1 (forallb_forall _ _) byteval_true b) as H. cbv beta in H.
+  apply Z.eqb_eq. apply H. apply in_symbols. exact Hb.
+Qed.
+Lemma all_true_repeat l : forallb (fun b : bool => b) l = true -> l = repeat true (length l).
+Proof. induction l as [|x l IH]; [reflexivity|]. simpl. intros H. apply andb_true_iff in H. destruct H as [-> H]. f_equal. auto. Qed.
+
+Lemma is_padding_inv bits : is_padding bits = true -> (length bits < 8)%nat /\ forallb (fun b => b) bits = true.
+Proof.
+  unfold is_padding. intros H. apply andb_true_iff in H. destruct H as [H1 H2]. split; [|exact H2].
+  apply Nat.ltb_lt in H1. destruct (Nat.le_gt_cases 8 (length bits)) as [Hge|Hlt]; [|exact Hlt].
+  rewrite firstn_length_le in H1 by exact Hge. lia.
+Qed.
+
+Lemma final_ok n cur cbits sbits out : inv n cbits sbits -> cbits < 8 ->
+  sym_match (path_of n ++ qb cur cbits) = None ->
+  final cur cbits sbits out = R out (path_of n ++ qb cur cbits).
+Proof.
+  intros [Hn [Hc Hs]] Hc8 Hsm. unfold final. destruct (sbits >? 7) eqn:E7.
+  - symmetry. apply R_none; [|exact Hsm]. apply is_padding_long. rewrite app_length, qb_length. lia.
+  - assert (n = O) as -> by (destruct n; [reflexivity|pose proof (path_long (S n) ltac:(lia)); lia]).
+    rewrite path_root in *. cbn [app] in *. rewrite (mask_all_ones cur cbits Hc).
+    destruct (forallb (fun b => b) (qb cur cbits)) eqn:Ea.
+    + unfold R. rewrite bd_pad; [rewrite app_nil_r; reflexivity|].
+      apply is_padding_ones; [rewrite qb_length; lia|exact Ea].
+    + symmetry. apply R_none; [|exact Hsm]. unfold is_padding. rewrite Ea. apply andb_false_r.
+Qed.
+
+Lemma tail_ok : forall fuel n cur cbits sbits out,
+  inv n cbits sbits -> cbits < 8 -> cbits < Z.of_nat fuel ->
+  tail_finish fuel n cur cbits sbits out = R out (path_of n ++ qb cur cbits).
+Proof.
+  induction fuel as [|f IH]; intros n cur cbits sbits out Hinv Hc8 Hf; [destruct Hinv as [_ [? _]]; lia|].
+  pose proof Hinv as [Hn [Hc Hs]].
+  unfold tail_finish. rewrite tail_S. destruct (cbits >? 0) eqn:E0.
+  2:{ assert (cbits = 0) as -> by lia. apply (final_ok n cur 0 sbits out Hinv ltac:(lia)).
+      unfold qb. cbn [Z.to_nat bits_msb]. rewrite app_nil_r. apply path_no_match. exact Hn. }
+  destruct (idx_tail cur cbits ltac:(lia)) as [Hidx Hw].
+  set (idx := Z.land (Z.shiftl cur (8 - cbits)) 255) in *. clearbody idx.
+  set (zs := repeat false (Z.to_nat (8 - cbits))) in *.
+  pose proof (child_fact n idx Hn Hidx) as Hok. unfold child_ok in Hok. rewrite Hw in Hok.
+  destruct (get_child huff_trie n idx) as [[|sym k|m]|] eqn:Eg; [| | |discriminate].
+  - (* nil *)
+    apply andb_true_iff in Hok. destruct Hok as [Hncp _].
+    rewrite app_assoc in Hncp. apply ncp_prefix in Hncp.
+    symmetry. apply R_none; [|apply ncp_sym_none; exact Hncp].
+    destruct (is_padding (path_of n ++ qb cur cbits)) eqn:Ep; [|reflexivity]. exfalso.
+    destruct (is_padding_inv _ Ep) as [Hl Ha]. rewrite app_length, qb_length in Hl.
+    assert (n = O) as -> by (destruct n; [reflexivity|pose proof (path_long (S n) ltac:(lia)); lia]).
+    rewrite path_root in Ha. cbn [app] in Ha. apply all_true_repeat in Ha. rewrite qb_length in Ha.
+    pose proof (byteval idx Hidx) as Hbv. rewrite Hw, Ha in Hbv. unfold zs in Hbv.
+    pose proof ones_not_nil_true as Hnn.
+    assert (cbits = 1 \/ cbits = 2 \/ cbits = 3 \/ cbits = 4 \/ cbits = 5 \/ cbits = 6 \/ cbits = 7) as Hcases by lia.
+    destruct Hcases as [->|[->|[->|[->|[->|[->| ->]]]]]]; vm_compute in Hbv; rewrite <- Hbv in Eg;
+      cbn [forallb] in Hnn; rewrite Eg in Hnn; repeat rewrite ?andb_false_r, ?andb_false_l in Hnn; discriminate Hnn.
+  - (* leaf *)
+    apply andb_true_iff in Hok. destruct Hok as [Hok Hcode]. apply lb_eqb_eq in Hcode.
+    assert (1 <= k <= 8 /\ 0 <= sym < 256) as [Hk Hsym] by lia.
+    assert (In sym symbols) as Hin by (apply in_symbols; exact Hsym).
+    destruct (k >? cbits) eqn:Ek.
+    + (* the symbol needs more bits than are left: break *)
+      apply (final_ok n cur cbits sbits out Hinv Hc8).
+      destruct (sym_match (path_of n ++ qb cur cbits)) as [c|] eqn:Esm; [|reflexivity]. exfalso.
+      destruct (sym_match_some_inv _ _ Esm) as [Hcin [r Hr]].
+      assert (is_prefix_b (code_bits c) (code_bits sym) = true) as Hpre.
+      { rewrite Hcode. rewrite firstn_app, qb_length.
+        rewrite firstn_all2 by (rewrite qb_length; lia). rewrite app_assoc, Hr, <- app_assoc. apply is_prefix_b_app. }
+      pose proof (huff_prefix_free c sym Hcin Hin Hpre) as ->.
+      assert (length (code_bits sym) = (length (path_of n) + Z.to_nat k)%nat) as Hlen.
+      { rewrite Hcode, app_length, firstn_length, app_length, qb_length. unfold zs. rewrite repeat_length. lia. }
+      assert (length (path_of n ++ qb cur cbits) = (length (code_bits sym) + length r)%nat) as Hlen2
+        by (rewrite Hr, app_length; reflexivity).
+      rewrite app_length, qb_length in Hlen2. lia.
+    + (* emit the symbol *)
+      pose proof (qb_split cur cbits k ltac:(lia)) as Hq2.
+      assert (firstn (Z.to_nat k) (qb cur cbits ++ zs) = bits_msb (Z.to_nat k) (Z.shiftr cur (cbits - k))) as HA.
+      { rewrite firstn_app, qb_length. replace (Z.to_nat k - Z.to_nat cbits)%nat with O by lia. simpl.
+        rewrite app_nil_r, Hq2. rewrite firstn_app, bits_msb_length, Nat.sub_diag, firstn_all2 by (rewrite bits_msb_length; lia).
+        simpl. apply app_nil_r. }
+      assert (R out (path_of n ++ qb cur cbits) = R (sym :: out) (path_of 0 ++ qb cur (cbits - k))) as HR.
+      { rewrite Hq2, path_root. cbn [app]. rewrite app_assoc, <- HA, <- Hcode. apply R_sym. exact Hin. }
+      rewrite HR. apply (IH O cur (cbits - k) (cbits - k) (sym :: out)); [|lia|lia].
+      split; [lia|split; [lia|]]. rewrite path_root. simpl. lia.
+  - (* internal node: break *)
+    apply andb_true_iff in Hok. destruct Hok as [_ Hncp].
+    rewrite app_assoc in Hncp. apply ncp_prefix in Hncp.
+    apply (final_ok n cur cbits sbits out Hinv Hc8). apply ncp_sym_none. exact Hncp.
+Qed.
